@@ -2,5 +2,6 @@ SPECIFICATION Spec
 INVARIANT MatchInv
 INVARIANT OutwardInv
 INVARIANT TruthInv
+INVARIANT ScanInv
 INVARIANT Dump
 CHECK_DEADLOCK FALSE
